@@ -52,6 +52,8 @@ type rzState struct {
 	jobsBefore    int
 	unsettled     bool
 	gate          *gateState
+	tableA        map[string][]string // owner table of the first cluster (wide mode)
+	partsSeen     map[int]bool
 	joinErr       error
 }
 
@@ -98,7 +100,7 @@ func (d *db) rz() *rzState { return d.aux.(*rzState) }
 var rzRacing = map[string]bool{"dupcomplete": true, "errcomplete": true, "unknownjob": true, "abort": true, "netfault": true, "clearfaults": true, "sleep": true, "await": true,
 	"gate": true, "nap": true, "gatewait": true, "reportdown": true, "reportready": true, "leave": true, "back": true, "gatesettle": true}
 
-var rzReadOnly = map[string]bool{"allnodes": true, "checkowners": true, "checkplan": true, "checkplacement": true, "join": true, "remove": true, "snapowners": true}
+var rzReadOnly = map[string]bool{"widecheck": true, "rebuild": true, "allnodes": true, "checkowners": true, "checkplan": true, "checkplacement": true, "join": true, "remove": true, "snapowners": true}
 
 func rzPreOp(d *db) func(op simrt.Op) {
 	return func(op simrt.Op) {
@@ -244,6 +246,66 @@ func contains(a []string, s string) bool {
 		}
 	}
 	return false
+}
+
+// ownerTable asks every node for the owners of shards 0..383 of two indexes and checks the
+// per-entry invariants; it returns the table as seen by the nodes (all must agree).
+func (d *db) ownerTable() map[string][]string {
+	st := d.rz()
+	nodes := d.openNodes()
+	ref := pilosa.VCluster(nodes[0].srv)
+	members := append([]string(nil), ref.NodeIDs...)
+	sort.Strings(members)
+	want := ref.ReplicaN
+	if want < 1 {
+		want = 1
+	}
+	if want > len(members) {
+		want = len(members)
+	}
+	if st.partsSeen == nil {
+		st.partsSeen = map[int]bool{}
+	}
+	tbl := map[string][]string{}
+	for _, index := range []string{"i", "other-index"} {
+		for shard := uint64(0); shard < 384; shard++ {
+			key := fmt.Sprintf("%s/%d", index, shard)
+			st.partsSeen[pilosa.VPartition(nodes[0].srv, index, shard)] = true
+			for _, nd := range nodes {
+				got, err := ownersOf(nd, index, shard)
+				if err != nil {
+					d.fail("owners-error", "%s: ShardNodes(%s): %v", nd.id, key, err)
+					return nil
+				}
+				seen := map[string]bool{}
+				for _, id := range got {
+					if seen[id] || !contains(members, id) {
+						d.fail("owner-count", "%s: owners of %s = %v are not distinct members of %v", nd.id, key, got, members)
+						return nil
+					}
+					seen[id] = true
+				}
+				if len(got) != want {
+					d.fail("owner-count", "%s: owners of %s = %v, want %d of %v (ReplicaN %d)", nd.id, key, got, want, members, ref.ReplicaN)
+					return nil
+				}
+				if prev, ok := tbl[key]; ok && fmt.Sprint(prev) != fmt.Sprint(got) {
+					d.fail("owners-disagree", "owners of %s: %s says %v, another node says %v (members %v)", key, nd.id, got, prev, members)
+					return nil
+				}
+				tbl[key] = got
+				if own := pilosa.VOwnsShard(nd.srv, index, shard); own != seen[nd.id] {
+					d.fail("self-ownership", "%s: ownsShard(%s)=%v but owners are %v", nd.id, key, own, got)
+					return nil
+				}
+			}
+		}
+	}
+	d.c.ProbeN("owner-table-entries", len(tbl))
+	if len(st.partsSeen) == 256 {
+		d.c.Probe("all-256-partitions-covered")
+	}
+	return tbl
 }
 
 // checkImportGate: an import for shard s is accepted by node X iff X is an owner.
@@ -595,6 +657,51 @@ func rzExtra(d *db, op simrt.Op) bool {
 		d.settle(I[0])
 	case "checkowners":
 		d.checkOwners()
+	case "widecheck": // owners of many (index, shard) pairs from every node; the first call records, later calls compare
+		tbl := d.ownerTable()
+		if d.c.Failed() {
+			return true
+		}
+		if st.tableA == nil {
+			st.tableA = tbl
+		} else {
+			for _, k := range simrt.SortedKeys(st.tableA) {
+				if fmt.Sprint(st.tableA[k]) != fmt.Sprint(tbl[k]) {
+					d.fail("owners-depend-on-join-order", "owners of %s: %v when the nodes joined in index order, %v after the same node ids joined in another order", k, st.tableA[k], tbl[k])
+					return true
+				}
+			}
+			d.c.Probe("join-orders-compared")
+		}
+	case "rebuild": // I=[perm seed]: same node ids, fresh directories, another join order
+		old := d.cl
+		ids := make([]string, len(old.nodes))
+		for i, nd := range old.nodes {
+			ids[i] = nd.id
+		}
+		old.closeAll()
+		perm := append([]int{0}, func() []int {
+			p := simrt.NewRand(uint64(I[0])).Perm(len(ids) - 1)
+			for i := range p {
+				p[i]++
+			}
+			return p
+		}()...)
+		cl := newSimCluster(d.c, 0, old.replicas)
+		cl.poolSize = old.poolSize
+		cl.dirPrefix = "b-"
+		cl.idFor = func(i int) string { return ids[perm[i]] }
+		for range ids {
+			cl.addNodeSpec()
+		}
+		d.cl = cl
+		if err := cl.start(); err != nil {
+			d.fail("start", "second cluster: %v", err)
+			return true
+		}
+		if !cl.awaitState(pilosa.ClusterStateNormal, 60*time.Second) {
+			d.fail("resize-stalled", "second cluster did not reach NORMAL: %s", d.describe())
+		}
 	case "checkgate": // S=[index,field] I=[shard]
 		d.checkImportGate(S[0], S[1], uint64(I[0]))
 	case "checkplan":
@@ -745,6 +852,18 @@ func rzPlan(r *simrt.Rand, nodes, replicas int, ops []simrt.Op) *simrt.Plan {
 }
 
 func genC20(r *simrt.Rand, tier string) *simrt.Plan {
+	if r.Bool(0.4) {
+		// wide mode: no data (joins need no resize), up to 8 nodes, ReplicaN 0..9, owner table over
+		// 768 (index, shard) pairs from every node, then the same ids joined in another order
+		nodes := 1 + r.Intn(8)
+		ops := []simrt.Op{{K: "widecheck"}}
+		if nodes > 2 {
+			ops = append(ops, simrt.Op{K: "rebuild", I: []int64{int64(r.Intn(1 << 30))}}, simrt.Op{K: "widecheck"})
+		}
+		p := rzPlan(r, nodes, r.Intn(10), ops)
+		p.Knobs["eager"] = 1
+		return p
+	}
 	nodes := 1 + r.Intn(3)
 	replicas := r.Intn(5) // 0..4 (0 is treated as 1 by the cluster)
 	g, ops := rzBase(r, nodes, replicas)
